@@ -84,8 +84,8 @@ def ref_model(table, structs, protos, msgs):
     m["GUARD"] = uniq([r[4] for r in table if present(r[4])])
     sigs, seen = [], set()
     for r in table:
-        if present(r[3]) and (r[3] + r[1]) not in seen:
-            seen.add(r[3] + r[1])
+        if present(r[3]) and (r[3], r[1]) not in seen:
+            seen.add((r[3], r[1]))
             sigs.append((r[3], r[1]))
     m["SIG"] = sigs
     m["STRUCT"], m["PROTOMSG"], m["MSG"] = list(structs), list(protos), list(msgs)
@@ -161,7 +161,8 @@ def ref_section(sec, m, table):
     if kind == "trans":
         _k, s_pre, e_pre, g_body, e_post, s_post = sec
         out = []
-        for st in uniq([r[0] for r in table]):
+        srcs = uniq([r[0] for r in table])
+        for st in srcs + [x for x in m["STATE"] if x not in srcs]:   # target-only states follow, without transitions
             out += [put_name(l, "STATE", st) for l in s_pre]
             for ev in uniq([r[1] for r in table if r[0] == st]):
                 out += [put_name(put_name(l, "STATE", st), "EVENT", ev) for l in e_pre]
